@@ -25,7 +25,7 @@ CLAIMS = {
   technique="deterministic simulation: PRNG-driven map-iteration order at a guarded seam; partition oracle from the log path"),
  "C14": dict(
   level="fault_enumeration", ref="DESIGN.md §3.5",
-  text="Query shape x fault x position x completion order, all owned by the simulator. 30% of the plans enumerate every single fault over everything the fault-free twin touched (each byte offset of each stream for cut and read error, each frame x corruption kind, each open call x release order, each list call, cancellation at each transport event); the others carry one or two seeded faults in larger worlds. Oracle: evaluation may succeed although a failure was delivered to it only if its answer is exactly the fault-free twin's (anything else is a silently truncated result; never a panic or hang), an error needs a delivered failure or an invalid query, and every reader handed out - also to requests answered after evaluation returned - must have been closed. Enumeration per sampled world, sampling across worlds and templates: evidence, not proof.",
+  text="Query shape x fault x position x completion order, all owned by the simulator. About a fifth of the plans enumerate every single fault over everything the fault-free twin touched (each byte offset of each stream for cut and read error, each frame x corruption kind, each open call x release order, each list call, cancellation at each transport event); the others carry one or two seeded faults in larger worlds. Oracle: evaluation may succeed although a failure was delivered to it only if its answer is exactly the fault-free twin's (anything else is a silently truncated result; never a panic or hang), an error needs a delivered failure or an invalid query, and every reader handed out - also to requests answered after evaluation returned - must have been closed; where reads are under the scheduler Close calls are too, and a reader still open at the instant the evaluation call returns (closed later by a goroutine nobody waits for) is a violation. Enumeration per sampled world, sampling across worlds and templates: evidence, not proof.",
   note="Trusted: what the simulated stream delivered (a decoder may read ahead: a delivered failure that cannot have mattered may go unreported), the classification of a cut at a frame boundary or inside a header as a clean end (C03), sticky EOF/errors as net/http bodies behave.",
   technique="deterministic simulation with fault injection: single-fault enumeration and seeded multi-fault runs over release orders; fault-free-twin oracle and close accounting"),
  "C16": dict(
@@ -35,9 +35,9 @@ CLAIMS = {
   technique="deterministic simulation: real CLI under a simulated clock against a simulated daemon; arithmetic oracle on the recorded transport options"),
  "C18": dict(
   level="exploration", ref="DESIGN.md §3.7",
-  text="The same plan is re-executed >= 4 times varying only what the simulator owns: release order of the concurrent requests (all n! for small n), read fragmentation, map and stream order at the seams; canonical results, error outcome and - through the real command - stdout bytes must agree. A second phase runs the generator under the race detector with whole batches of parked calls released at once. Sampling: evidence, not proof; the race verdict is the Go detector's.",
+  text="The same plan is re-executed >= 4 times varying only what the simulator owns: release order of the concurrent requests (all n! for small n), read fragmentation, map and stream order at the seams; canonical results, error outcome and - through the real command - stdout bytes must agree. In a share of the executions every Read and Close parks as well and the PRNG picks among all parked operations. A sample of plans (and every plan run under cache pressure - thousands of throw-away queries with distinct literals, regexes and templates before or between the evaluations) is also answered by a fresh process, and the answers must agree (history independence). A second phase runs the generator under the race detector with whole batches of parked calls released at once. Sampling: evidence, not proof; the race verdict is the Go detector's.",
   note="Trusted: canonicalisation (streams/series sorted by label rendering, entries of a stream as a multiset), exclusion of constructs whose answer LogQL leaves open (topk/bottomk ties, sort) and of inexact float sums. Race replay re-runs the race binary; Go gives no formal guarantee that a race is reported on every run.",
-  technique="deterministic simulation: self-agreement across seeded schedules, fragmentations and map orders; race-detector phase with parallel release"),
+  technique="deterministic simulation: self-agreement across seeded schedules (opens, reads, closes), fragmentations and map orders, and with a fresh process after cache pressure; race-detector phase with parallel release"),
 }
 
 NA = {
